@@ -12,4 +12,7 @@ mod kw;
 #[cfg(not(all(feature = "syn", feature = "syn2")))]
 mod validate;
 
+#[cfg(all(o2o_verif, not(all(feature = "syn", feature = "syn2"))))]
+pub mod verif;
+
 mod tests;
